@@ -131,6 +131,14 @@ def check_precedence(ctx: Check, tree: Tree, prefixes: tuple[str, ...]) -> int:
                         for e, f_ in zip(elts, [x.name for x in ec.sympy_fields]):
                             if isinstance(e, ast.Name) and e.id == hole.id:
                                 label = f"field {f_}"
+                    # `x = printer._print(self.<field>)`: the same field reached by attribute
+                    from ..dataflow import RD as _RD
+
+                    for d in _RD(fn.node).reaching(hole):
+                        v = d.value
+                        if isinstance(v, ast.Call) and v.args and isinstance(v.args[0], ast.Attribute) and isinstance(v.args[0].value, ast.Name) and v.args[0].value.id == "self" \
+                                and v.args[0].attr in {x.name for x in ec.fields}:
+                            label = f"field {v.args[0].attr}"
             except Exception:  # noqa: BLE001
                 pass
             ctx.violation("R-PREC", f"{fn.qual}::precedence::{label}", tree.loc(hole), f"{fn.qual}: {why}",
